@@ -451,6 +451,130 @@ def check(ctx):
         aw = [st for st in cls.body if isinstance(st, ast.Assign) and any(is_name(t, "__await__") for t in st.targets)]
         ctx.check(len(aw) == 1 and is_name(aw[0].value, "__iter__"), "await/alias", Q + "Deferred.__await__", "__await__ is not __iter__: coroutines and generators would see different behaviour")
 
+    # ---- a Deferred's outcome is taken through a callback, or from a Deferred proven idle --------------------------
+    with group(ctx, "outcome"):
+        _check_outcome_reads(ctx)
+
+
+_OUTCOME_EXAMPLES = (
+    # (source, number of reports expected): the positive example that must match on every run, and its guarded twin
+    ("def f(d):\n    if d.called and not (d.paused or d.callbacks):\n        return d.result\n", 1),
+    ("def f(d):\n    if d.called and not d.paused and not d._runningCallbacks:\n        return d.result\n", 0),
+    ("def f(d):\n    if not d.called or d.paused or d._runningCallbacks:\n        return None\n    x = d\n    return x.result\n", 0),
+    ("def f(d):\n    return getattr(d, 'result', None)\n", 1),
+    ("def f(fut):\n    return fut.result()\n", 0),
+)
+_IDLE_FACTS = (("called", True), ("paused", False), ("_runningCallbacks", False))
+
+
+def _guard_facts(test, pol, out):
+    """Atoms a test establishes when it evaluates to ``pol`` (conjunctive reading only; a disjunction establishes nothing)."""
+    if isinstance(test, ast.UnaryOp) and isinstance(test.op, ast.Not):
+        _guard_facts(test.operand, not pol, out)
+    elif isinstance(test, ast.BoolOp):
+        if isinstance(test.op, ast.And) == pol:
+            for v in test.values:
+                _guard_facts(v, pol, out)
+    else:
+        out.add((ast.unparse(test), pol))
+
+
+def _exits(body) -> bool:
+    return bool(body) and isinstance(body[-1], (ast.Return, ast.Raise, ast.Continue, ast.Break))
+
+
+def _outcome_reads(func):
+    """(load node, receiver text, missing idle facts) for every read of ``<other>.result`` in ``func`` (not ``self.result``, not a
+    ``.result()`` call) that is not guarded by: receiver called, not paused, not running its callbacks."""
+    for n in ast.walk(func):
+        for ch in ast.iter_child_nodes(n):
+            ch._p5 = n  # type: ignore[attr-defined]
+    alias = {}
+    for st in ast.walk(func):
+        if isinstance(st, ast.Assign) and len(st.targets) == 1 and isinstance(st.targets[0], ast.Name) and isinstance(st.value, ast.Name):
+            alias.setdefault(st.targets[0].id, set()).add(st.value.id)
+
+    def names_for(r):
+        seen, todo = set(), [r]
+        while todo:
+            x = todo.pop()
+            if x in seen:
+                continue
+            seen.add(x)
+            todo += list(alias.get(x, ())) + [k for k, v in alias.items() if x in v]
+        return seen
+
+    out = []
+    for n in ast.walk(func):
+        recv = None
+        if isinstance(n, ast.Attribute) and n.attr == "result" and isinstance(n.ctx, ast.Load):
+            par = getattr(n, "_p5", None)
+            if isinstance(par, ast.Call) and par.func is n:
+                continue                      # Future.result() and the like: a method call, not the Deferred attribute
+            recv = n.value
+        elif (isinstance(n, ast.Call) and isinstance(n.func, ast.Name) and n.func.id == "getattr" and len(n.args) >= 2
+              and isinstance(n.args[1], ast.Constant) and n.args[1].value == "result"):
+            recv = n.args[0]
+        if recv is None or (isinstance(recv, ast.Name) and recv.id == "self"):
+            continue
+        facts = set()
+        child, par = n, getattr(n, "_p5", None)
+        while par is not None and child is not func:
+            if isinstance(par, (ast.If, ast.While, ast.IfExp)):
+                body = par.body if isinstance(par.body, list) else [par.body]
+                orelse = par.orelse if isinstance(par.orelse, list) else [par.orelse]
+                if any(child is b for b in body):
+                    _guard_facts(par.test, True, facts)
+                elif any(child is b for b in orelse) and not isinstance(par, ast.While):
+                    _guard_facts(par.test, False, facts)
+            if isinstance(par, ast.BoolOp) and child in par.values:
+                for v in par.values[:par.values.index(child)]:
+                    _guard_facts(v, isinstance(par.op, ast.And), facts)
+            for field in ("body", "orelse", "finalbody"):
+                seq = getattr(par, field, None)
+                if isinstance(seq, list) and any(child is b for b in seq):
+                    for prev in seq[:[i for i, b in enumerate(seq) if b is child][0]]:
+                        if isinstance(prev, ast.If) and not prev.orelse and _exits(prev.body):
+                            _guard_facts(prev.test, False, facts)      # guard clause: the test was false when control got here
+            child, par = par, getattr(par, "_p5", None)
+        rtxt = ast.unparse(recv)
+        rnames = names_for(rtxt) if isinstance(recv, ast.Name) else {rtxt}
+        missing = [f"{'' if pol else 'not '}{rtxt}.{a}" for a, pol in _IDLE_FACTS if not any((f"{r}.{a}", pol) in facts for r in rnames)]
+        if missing:
+            out.append((n, rtxt, missing))
+    return out
+
+
+def _check_outcome_reads(ctx):
+    for text, want in _OUTCOME_EXAMPLES:
+        got = len(_outcome_reads(ast.parse(text).body[0]))
+        if got != want:
+            raise AnalysisError(f"outcome/read-only-when-idle: the rule's own example {text!r} gives {got} reports, expected {want}")
+    mod = ctx.mod(DEFER)
+    inside = set()
+    for c in mod.classes():
+        if c.name == "Deferred":
+            inside |= {id(x) for x in ast.walk(c)}
+    ctx.need(inside, "class Deferred in defer.py")
+    nfun = nreads = 0
+    for qual, fn in mod.functions():
+        if id(fn) in inside:
+            continue
+        owner = [f for q2, f in mod.functions() if f is not fn and id(f) not in inside and any(x is fn for x in ast.walk(f))]
+        if owner:
+            continue                           # nested function: read as part of the outermost function (its guards may be outside)
+        nfun += 1
+        bad = _outcome_reads(fn)
+        nreads += len(bad)
+        for node, rtxt, missing in bad:
+            ctx.violation("outcome/read-only-when-idle", ctx.construct(Q + qual, node),
+                          f"`{rtxt}.result` is read outside class Deferred without the guards {', '.join(missing)}: a Deferred that is running its callbacks "
+                          "(its last callback is popped from .callbacks before it is called), is paused, or has not fired holds an intermediate value in .result, "
+                          "so a generator / coroutine resumed with it observes something other than the Deferred's final outcome (what a synchronous caller would see)")
+        if not bad:
+            ctx.ok("outcome/read-only-when-idle", Q + qual, "no read of another Deferred's .result, or only from a Deferred proven called, unpaused and not running callbacks")
+    ctx.floor("outcome/read-only-when-idle", nfun, 40, "functions outside class Deferred")
+
 
 def _need_protocol(M):
     """The typestate clauses presuppose the suspension protocol of the driver: a `waiting` cell list handed to the registered helper."""
@@ -770,6 +894,14 @@ def _canceller_ok(dcall, status_name, encl=None, mod=None) -> bool:
 
 D = DEFER
 MUTANTS = [
+    Mutant("outcome-read-from-fired-deferred", D,
+           "            # a deferred was yielded, get the result.\n            result.addBoth(_gotResultInlineCallbacks, waiting, gen, status, context)  # type: ignore[attr-defined]\n",
+           "            if result.called and not result.paused and not result.callbacks:  # type: ignore[attr-defined]\n                fired = result\n                result = fired.result  # type: ignore[attr-defined]\n                fired.result = None  # type: ignore[attr-defined]\n                continue\n            # a deferred was yielded, get the result.\n            result.addBoth(_gotResultInlineCallbacks, waiting, gen, status, context)  # type: ignore[attr-defined]\n",
+           expect_rule="outcome/read-only-when-idle"),
+    Mutant("outcome-peek-in-helper", D,
+           "    if waiting[0]:\n        waiting[0] = False\n        waiting[1] = r\n",
+           "    if waiting[0]:\n        waiting[0] = False\n        waiting[1] = getattr(status.waitingOn, \"result\", r)\n",
+           expect_rule="outcome/read-only-when-idle"),
     Mutant("waitingOn-before-wrapping", D,
            "        if not isDeferred and (iscoroutine(result) or inspect.isgenerator(result)):\n            result = _cancellableInlineCallbacks(result)",
            "        status.waitingOn = result  # type: ignore[assignment]\n        if not isDeferred and (iscoroutine(result) or inspect.isgenerator(result)):\n            result = _cancellableInlineCallbacks(result)",
@@ -843,6 +975,9 @@ MUTANTS = [
            expect_rule="return-value/flow"),
 ]
 SILENT = [
+    Silent("outcome-read-fully-guarded", D,
+           "            # a deferred was yielded, get the result.\n            result.addBoth(_gotResultInlineCallbacks, waiting, gen, status, context)  # type: ignore[attr-defined]\n",
+           "            if result.called and not result.paused and not result._runningCallbacks:  # type: ignore[attr-defined]\n                _settled = result.result  # type: ignore[attr-defined]\n            # a deferred was yielded, get the result.\n            result.addBoth(_gotResultInlineCallbacks, waiting, gen, status, context)  # type: ignore[attr-defined]\n"),
     Silent("cancel-attribute-directly", D, "    awaited = status.waitingOn\n    assert awaited is not None\n    awaited.cancel()\n", "    assert status.waitingOn is not None\n    status.waitingOn.cancel()\n"),
     Silent("suspend-stores-reordered", D, "                waiting[0] = False\n                status.waitingOn = result  # type: ignore[assignment]\n                return\n",
            "                status.waitingOn = result  # type: ignore[assignment]\n                waiting[0] = False\n                return\n"),
